@@ -2270,6 +2270,16 @@ def odd_inputs():
     add("resolution_7min", "  timingresolution 7min\n", 'task a "A" { effort 1d allocate r }\n')
     add("length_hours", "", 'task a "A" { effort 1h allocate r }\n', "+6h")
     add("length_minutes", "", 'task a "A" { effort 1h allocate r }\n', "+300min")
+    # the same astronomically large gap seen from the other end (backward mode, on-start edge, maximum gap), a working-time gap
+    # counted from a milestone the user put years before the project, numbers no float can hold
+    add("huge_gap_alap", "", 'task a "A" { effort 1d allocate r scheduling alap precedes !b { gapduration 4000000d } }\ntask b "B" { effort 1d allocate r scheduling alap end 2024-01-12 }\n')
+    add("huge_gap_alap_onstart", "", 'task b "B" { effort 1d allocate r scheduling alap end 2024-01-12 }\ntask a "A" { effort 1d allocate r scheduling alap depends !b { onstart gapduration 4000000d } }\n')
+    add("huge_gap_maxgap", "", 'task a "A" { effort 1d allocate r }\ntask b "B" { effort 1d allocate r2 depends !a { gapduration 4000000d maxgapduration 1h } }\n')
+    add("gaplength_early_milestone", "", 'task n "N" { milestone start 2020-01-01 }\ntask s "S" { effort 1d allocate r depends !n { gaplength 1d } }\n')
+    add("gaplength_3d_early_milestone", "", 'task n "N" { milestone start 2023-12-29 }\ntask s "S" { effort 1d allocate r depends !n { gaplength 1d } }\n')
+    add("effort_400_digits", "", 'task a "A" { effort %sd allocate r }\n' % ("9" * 400))
+    add("gap_400_digits", "", 'task a "A" { effort 1d allocate r }\ntask b "B" { effort 1d allocate r depends !a { gapduration %sd } }\n' % ("9" * 400))
+    add("gaplength_400_digits", "", 'task a "A" { effort 1d allocate r }\ntask b "B" { effort 1d allocate r depends !a { gaplength %sd } }\n' % ("9" * 400))
     add("huge_gap", "", 'task a "A" { effort 1d allocate r }\ntask b "B" { effort 1d allocate r depends !a { gapduration 10000000d } }\n')
     add("huge_gaplength", "", 'task a "A" { effort 1d allocate r }\ntask b "B" { effort 1d allocate r depends !a { gaplength 100000d } }\n')
     add("late_project", "", 'task a "A" { effort 30d allocate r }\n'.replace("30d", "30d"), None)
